@@ -410,6 +410,65 @@ def run_shard(cfg):
         challenge_attack("app-message-typed-challenge", lambda d, cl: [(A.seal(cl.udp.conn.session_key_bytes, "c2s", 3, 2, 1, 0,
                                                                         [(2, 6, b"hello"), (3, 6, b"world")], now(), count=2), "forged:app-in-challenge")])
         challenge_attack("dropped", lambda d, cl: None)
+
+        # --- two handshakes pending at once: an authenticated peer echoes the OTHER pending connection's token
+        #     (it can read it from that connection's plaintext server hello)
+        def concurrent(variant):
+            S.n += 2
+            S.case = "challenge:right-key-other-pending-token"
+            pair = []
+            for k in range(2):
+                addr = ("10.4.%d.%d" % ((S.n >> 8) & 255, (S.n + k) & 255), 21000 + ((S.n + k) % 30000))
+                cl = L.ClientEnd(S.w, addr, 1, pinned=True)
+                S.w.clients.append(cl)
+                S.w.clients_by_addr[addr] = cl
+                pair.append(cl)
+            a, b = pair
+            held = {}
+
+            def flt(direction, addr, d, info):
+                if direction == "c2s" and len(d) >= 20 and d[12] == 3 and addr in (a.addr, b.addr):
+                    held[addr] = d
+                    return "drop"
+                return None
+            S.w.net.filters.append(flt)
+            a.connect()
+            b.connect()
+            S.w.step(8)
+            S.w.net.filters.remove(flt)
+            ok = a.udp.conn.session_key_bytes and b.udp.conn.session_key_bytes and a.addr in S.w.ctxt.temp_connections and b.addr in S.w.ctxt.temp_connections
+            if ok:
+                out["counters"].inc("concurrent_pending_pairs")
+                if variant == 0:
+                    forged = A.seal(b.udp.conn.session_key_bytes, "c2s", 3, 2, 1, 0, [(2, 3, with_token(b, a.udp.conn.token))], now())
+                    S.w.net.inject("c2s", b.addr, forged, "forged:right-key-other-pending-token")
+                    S.w.step(4)
+                    if b.addr in S.w.ctxt.connections:
+                        S.viol("promoted-without-proof-of-key", "the server promoted %s on a challenge that carried the token of ANOTHER pending connection" % (b.addr,))
+                    # the honest one still completes
+                    S.w.net.inject("c2s", a.addr, held[a.addr], "honest")
+                    S.w.step(4)
+                    if a.addr not in S.w.ctxt.connections:
+                        S.viol("honest-handshake-failed", "the honest client of a concurrent pair was not promoted")
+                else:
+                    # swapped genuine challenges: each is sealed under the other's key - neither may be promoted by it
+                    S.w.net.inject("c2s", a.addr, held[b.addr], "replay:other-connection-challenge")
+                    S.w.net.inject("c2s", b.addr, held[a.addr], "replay:other-connection-challenge")
+                    S.w.step(4)
+                    for x in (a, b):
+                        if x.addr in S.w.ctxt.connections:
+                            S.viol("promoted-without-proof-of-key", "the server promoted %s on another connection's challenge datagram" % (x.addr,))
+            for cl in pair:
+                try:
+                    cl.udp.disconnect()
+                except Exception:
+                    pass
+            S.w.step(3)
+            for cl in pair:
+                S.w.remove_client(cl)
+            out["distinct"].add(h64("concurrent", variant, S.n))
+        for v in (0, 1, 0, 1):
+            concurrent(v)
         # --- byte-level mutations of the three handshake datagrams, positions striped over the shards
         sizes = {k: len(v) for k, v in captured.items()}
         plan_ = []
@@ -453,7 +512,7 @@ def finish(tier, seed, results):
     inconclusive = []
     need(m["counters"], ["honest_handshakes", "root_key_signatures", "client_key_derivations", "client_params_in_signed_set",
                          "signature_verified_independently", "promotions_with_proof", "client_left_unconnected",
-                         "mutations_type1", "mutations_type2", "mutations_type3", "server_connect_events"], inconclusive)
+                         "mutations_type1", "mutations_type2", "mutations_type3", "server_connect_events", "concurrent_pending_pairs"], inconclusive)
     cov = {
         "evaluations": m["evaluations"],
         "distinct_nontrivial": m["distinct_nontrivial"],
